@@ -2,7 +2,8 @@
 # tools/try_patch.sh <patch.diff> <check ids...>
 # Applies the patch to a scratch copy of /repo (never to /repo itself), confirms that it builds and that the
 # repository's own test suite still passes, then runs the given quick checks of a scratch copy of the
-# framework linked against the patched copy. Prints one line per check.
+# framework linked against the patched copy. Prints one line per check. VCHECK_PKG=./cmd/vcheck-<group> builds
+# only that group's driver (for builders working in parallel on different groups).
 set -u
 export GOFLAGS=-mod=mod GOPROXY=off GOSUMDB=off GOTOOLCHAIN=local
 PATCH="$(readlink -f "$1")"; shift
@@ -15,7 +16,7 @@ if ! ( cd "$S/repo" && go test -vet=off -count=1 ./... >"$S/test.log" 2>&1 ); th
 echo "patched tree builds and passes the repo suite"
 cp -r /verif/framework "$S/framework"
 sed -i "s#=> /repo#=> $S/repo#" "$S/framework/go.mod"
-( cd "$S/framework" && go build -tags verif -o "$S/vcheck" ./cmd/vcheck ) || { echo "framework does not build against patched tree"; exit 2; }
+( cd "$S/framework" && go build -tags verif -o "$S/vcheck" "${VCHECK_PKG:-./cmd/vcheck}" ) || { echo "framework does not build against patched tree"; exit 2; }
 TIER="${TIER:-quick}"
 for id in "$@"; do
   out=$(cd /verif && VERIF_REPO="$S/repo" VERIF_FRAMEWORK="$S/framework" timeout 1800 "$S/vcheck" run "$id" "$TIER" 2>&1)
